@@ -45,6 +45,7 @@ package Electiontrigger
 // the timer callback hands exactly the registered pair and cancel channel to triggerElections
 //@ func (*TimerBasedElectionTrigger).RegisterOnElection$1
 //@   props C19
+//@   modifies ghost:nsent
 //@   requires triggerCancelled != nil
 //@   assert before call triggerElections [O19.4.trigger-carries-the-registered-pair] $height == blockHeight && $view == view && $triggerCancelled == triggerCancelled
 
